@@ -231,8 +231,19 @@ def heap_part(ctx, c):
     for i in bad[:3]:
         mons = K.score_monitors(cases[i], outs[i])
         th, _, text = mons[0] if mons else ('score_sorted_stable', None, 'model and implementation disagree (codes %s)' % (explain.get(i),))
+        if lost_text(cases[i], outs[i]):
+            th, text = 'score_times_exact', lost_text(cases[i], outs[i])
         c.failures.append(Failure('correspondence', '%s fails on the real library (NRT): %s. Program: %s' % (th, text, json.dumps(cases[i])),
                                   theorem=th, found_input=True, replay={'program': cases[i], 'observed_score': outs[i]['score']}))
+
+
+def lost_text(p, o):
+    """a send that returned normally but did not reach the score of THIS life of the NRT session"""
+    if not o.get('lost_sends'):
+        return None
+    ls = o['lost_sends'][0]
+    return ('a bundle sent in this life of the NRT session (after main.reset()) through address objects of kind %r at logical time %s returned '
+            'normally but is NOT in the score main.process() returns for this life (%d such sends)' % (ls['addr_kind'], ls['at_logical_time'], len(o['lost_sends'])))
 
 
 def close_part(ctx, c):
@@ -262,7 +273,7 @@ def close_part(ctx, c):
     for b in bad[:3]:
         p, o = cases[idx[b]], outs[idx[b]]
         mons = K.score_monitors(p, o)
-        text = (mons[0][2] if mons else None) or K.close_monitor(p, o) or 'model and implementation disagree'
+        text = lost_text(p, o) or (mons[0][2] if mons else None) or K.close_monitor(p, o) or 'model and implementation disagree'
         c.failures.append(Failure('correspondence', 'score_ends_with_tail_marker (closed from inside a routine) fails on the real library (NRT): %s. Program: %s'
                                   % (text, json.dumps(p)), theorem='score_ends_with_tail_marker_closed_inside', found_input=True,
                                   replay={'program': p, 'observed_score': o['score'], 'observed_elapsed': o['elapsed']}))
@@ -285,6 +296,13 @@ def correspond(ctx):
     for p_, o_ in zip(cases, outs):
         if 'fatal' in o_:
             continue
+        if o_.get('lost_sends') and not any('life of the NRT session' in f.what for f in c.failures):
+            ls = o_['lost_sends'][0]
+            c.failures.append(Failure('correspondence', 'a bundle sent in this life of the NRT session (after main.reset()) through address objects of kind %r at logical '
+                                      'time %s returned normally but is NOT in the score main.process() returns for this life (%d lost). Program: %s'
+                                      % (ls['addr_kind'], ls['at_logical_time'], len(o_['lost_sends']), json.dumps(p_)),
+                                      theorem='score_times_exact', found_input=True, replay={'program': p_, 'lost_sends': o_['lost_sends'],
+                                                                                            'observed_score': o_['score']}))
         two = []
         for j, s_ in enumerate(o_['score']):
             K._two_site(s_, two, 'score entry %d' % j)
